@@ -58,6 +58,8 @@ let model_answer d op a : n option =
   | "select0" -> rg_select0 d a
   | _ -> failwith ("bad op " ^ op)
 
+let parked_seq : (string * n list * n) ref = ref ("", [], n_of_int 0)
+
 let cmd_bits (tk : string list) : bool =
   match tk with
   | "bs_build" :: kind :: param :: rest ->
@@ -120,6 +122,11 @@ let cmd_bits (tk : string list) : bool =
   | "seq_build" :: kind :: bk :: param :: syms ->
     st.skind <- kind; st.syms <- List.map n_of_string syms; st.sparam <- n_of_string param;
     pr "seq_build %s %s %s n=%d\n" kind bk param (List.length syms); true
+  | ["seq_swap"] ->
+    let (k, sy, pa) = !parked_seq in
+    parked_seq := (st.skind, st.syms, st.sparam);
+    st.skind <- k; st.syms <- sy; st.sparam <- pa;
+    pr "seq_swap current=%d\n" (List.length st.syms); true
   | ["seq_q"; "access"; i] ->
     (match seq_access st.syms (n_of_string i) with
      | Some v -> pr "seq_q access %s = %s\n" i (dec_of_n v)
@@ -160,4 +167,4 @@ let cmd_bits (tk : string list) : bool =
   | ["seq_reload"] -> pr "SKIP seq_reload\n"; true
   | _ -> false
 
-let () = register cmd_bits (fun () -> st.kind <- ""; st.bits <- []; st.rgd <- None; st.syms <- []; st.skind <- ""; st.sparam <- N0)
+let () = register cmd_bits (fun () -> st.kind <- ""; st.bits <- []; st.rgd <- None; st.syms <- []; st.skind <- ""; st.sparam <- N0; parked_seq := ("", [], N0))
